@@ -499,3 +499,442 @@ pub fn show_map(m: &BTreeMap<String, CovResult>) -> String {
         .collect::<Vec<_>>()
         .join(" ")
 }
+
+// =================================================================================================
+// Session 4, second wave (package W7): new functions only.
+//  * `write_stored_zip`, `build_layout`: input sets packed into 1-2 zips and 2-3 directories and
+//    plain files, an LLVM gcno/gcda pair, a `-s` tree with `./` spellings, really shuffled arguments
+//    (review item 16);
+//  * `HangBudget`: bounds the wall time a check spends on runs that do not terminate;
+//  * `log_to_request_full`: `died_in_merge` (hook `panic_in_merge`), hook-rejected items that were
+//    still held when `main` left through `process::exit(1)` (review item 17).
+// =================================================================================================
+
+pub fn crc32(data: &[u8]) -> u32 {
+    let mut c: u32 = 0xFFFF_FFFF;
+    for b in data {
+        c ^= *b as u32;
+        for _ in 0..8 {
+            c = if c & 1 != 0 { (c >> 1) ^ 0xEDB8_8320 } else { c >> 1 };
+        }
+    }
+    !c
+}
+
+/// a zip archive with stored (uncompressed) entries, written by hand (corrlib has no zip crate)
+pub fn write_stored_zip(path: &Path, entries: &[(String, Vec<u8>)]) {
+    let mut out: Vec<u8> = vec![];
+    let mut central: Vec<u8> = vec![];
+    let le16 = |v: u16| v.to_le_bytes();
+    let le32 = |v: u32| v.to_le_bytes();
+    for (name, data) in entries {
+        let off = out.len() as u32;
+        let crc = crc32(data);
+        out.extend_from_slice(&le32(0x0403_4b50));
+        out.extend_from_slice(&le16(20)); // version needed
+        out.extend_from_slice(&le16(0)); // flags
+        out.extend_from_slice(&le16(0)); // stored
+        out.extend_from_slice(&le16(0)); // time
+        out.extend_from_slice(&le16(0x21)); // date 1980-01-01
+        out.extend_from_slice(&le32(crc));
+        out.extend_from_slice(&le32(data.len() as u32));
+        out.extend_from_slice(&le32(data.len() as u32));
+        out.extend_from_slice(&le16(name.len() as u16));
+        out.extend_from_slice(&le16(0));
+        out.extend_from_slice(name.as_bytes());
+        out.extend_from_slice(data);
+        central.extend_from_slice(&le32(0x0201_4b50));
+        central.extend_from_slice(&le16(20)); // made by
+        central.extend_from_slice(&le16(20)); // needed
+        central.extend_from_slice(&le16(0));
+        central.extend_from_slice(&le16(0));
+        central.extend_from_slice(&le16(0));
+        central.extend_from_slice(&le16(0x21));
+        central.extend_from_slice(&le32(crc));
+        central.extend_from_slice(&le32(data.len() as u32));
+        central.extend_from_slice(&le32(data.len() as u32));
+        central.extend_from_slice(&le16(name.len() as u16));
+        central.extend_from_slice(&le16(0)); // extra
+        central.extend_from_slice(&le16(0)); // comment
+        central.extend_from_slice(&le16(0)); // disk
+        central.extend_from_slice(&le16(0)); // internal attrs
+        central.extend_from_slice(&le32(0o100644 << 16)); // external attrs: a regular file
+        central.extend_from_slice(&le32(off));
+        central.extend_from_slice(name.as_bytes());
+    }
+    let cd_off = out.len() as u32;
+    out.extend_from_slice(&central);
+    out.extend_from_slice(&le32(0x0605_4b50));
+    out.extend_from_slice(&le16(0));
+    out.extend_from_slice(&le16(0));
+    out.extend_from_slice(&le16(entries.len() as u16));
+    out.extend_from_slice(&le16(entries.len() as u16));
+    out.extend_from_slice(&le32(central.len() as u32));
+    out.extend_from_slice(&le32(cd_off));
+    out.extend_from_slice(&le16(0));
+    std::fs::write(path, out).unwrap();
+}
+
+/// the spellings under which a tracefile may name a file that exists below the `-s` directory
+pub fn spellings_of(p: &str) -> Vec<String> {
+    let mut v = vec![p.to_string(), format!("./{}", p)];
+    if let Some((d, f)) = p.rsplit_once('/') {
+        v.push(format!("{}/./{}", d, f));
+        v.push(format!("{}//{}", d, f));
+        v.push(format!("./{}/./{}", d, f));
+    }
+    v
+}
+
+/// `./`, `/./` and `//` removed (what canonicalisation below the source directory does to an
+/// existing file's name)
+pub fn normalise_spelling(k: &str) -> String {
+    k.split('/').filter(|c| !c.is_empty() && *c != ".").collect::<Vec<_>>().join("/")
+}
+
+/// An input set as it lies on disk and is named on the command line.
+pub struct Layout {
+    /// every file written below the case directory (zips as their bytes): enough to replay
+    pub files: Vec<(String, Vec<u8>)>,
+    /// the artifacts with what each one contains (independent in-process parse; for the LLVM
+    /// gcno/gcda pair: the decoded report of a reference run on the pair alone)
+    pub inputs: Vec<Input>,
+    /// path arguments, relative to the case directory, in the (shuffled) order given
+    pub args: Vec<String>,
+    /// the arguments in generation order (to tell whether the shuffle changed anything)
+    pub args_canonical: Vec<String>,
+    /// `-s tree` when the layout has a source tree
+    pub extra: Vec<String>,
+    /// number of work items the producer must send
+    pub n_items: usize,
+    pub has_pair: bool,
+    pub source_tree: bool,
+    /// short description for the distribution counters
+    pub shape: String,
+}
+
+impl Layout {
+    pub fn materialise(&self, dir: &Path) {
+        let _ = std::fs::remove_dir_all(dir);
+        std::fs::create_dir_all(dir).unwrap();
+        for (p, b) in &self.files {
+            let path = dir.join(p);
+            std::fs::create_dir_all(path.parent().unwrap()).unwrap();
+            std::fs::write(path, b).unwrap();
+        }
+    }
+    /// the report every run must decode to: the C01 aggregate of what each artifact contains,
+    /// two spellings of one existing file being one file
+    pub fn expected(&self) -> BTreeMap<String, CovResult> {
+        let refs: Vec<&Input> = self.inputs.iter().collect();
+        let agg = aggregate(&refs);
+        if !self.source_tree {
+            return agg;
+        }
+        // merge the entries whose keys are spellings of one existing file
+        let existing: Vec<String> = self.files.iter().filter_map(|(p, _)| p.strip_prefix("tree/").map(|s| s.to_string())).collect();
+        let respelled: Vec<Input> = self.inputs.iter().map(|inp| Input {
+            name: String::new(), format: inp.format, bytes: vec![], id: String::new(),
+            parsed: inp.parsed.iter().map(|(k, c)| {
+                let n = normalise_spelling(k);
+                (if existing.contains(&n) { n } else { k.clone() }, c.clone())
+            }).collect(),
+        }).collect();
+        let refs: Vec<&Input> = respelled.iter().collect();
+        aggregate(&refs)
+    }
+    pub fn to_json(&self) -> serde_json::Value {
+        serde_json::json!({
+            "files": self.files.iter().map(|(p, b)| serde_json::json!([p, hex(b)])).collect::<Vec<_>>(),
+            "args": self.args, "extra": self.extra, "n_items": self.n_items,
+            "expected": show_map(&self.expected()), "shape": self.shape,
+        })
+    }
+}
+
+/// like `gen_inputs`, with the source files named under varying spellings when `spell` is set
+/// (all spellings denote files that exist below the source tree, except `d.cpp`)
+pub fn gen_inputs_spelled(rng: &mut Rng, k: usize, spell: bool) -> Vec<Input> {
+    let mut inputs = gen_inputs(rng, k);
+    if !spell {
+        return inputs;
+    }
+    for inp in inputs.iter_mut() {
+        if inp.format != "Info" {
+            continue;
+        }
+        let text = String::from_utf8_lossy(&inp.bytes).to_string();
+        let mut out = String::new();
+        for l in text.split_inclusive('\n') {
+            match l.strip_prefix("SF:") {
+                Some(sf) if sf.trim_end() != "d.cpp" => {
+                    let sp = spellings_of(sf.trim_end());
+                    out.push_str(&format!("SF:{}\n", rng.pick(&sp)));
+                }
+                _ => out.push_str(l),
+            }
+        }
+        inp.bytes = out.into_bytes();
+        inp.id = fnv_id("Info", &inp.bytes);
+        inp.parsed = grcov::parse_lcov(inp.bytes.clone(), true).expect("respelled tracefile is well formed");
+    }
+    inputs
+}
+
+/// A random packaging of `k` overlapping .info/.xml artifacts: each goes into one of 2-3
+/// directories (possibly a sub-directory), one of 1-2 zip archives, or stays a plain-file argument;
+/// now and then two artifacts get the SAME relative name in different archives; with probability
+/// 1/3 an LLVM gcno/gcda pair (/repo/test/llvm) lies in a directory or a zip; with probability 1/3
+/// there is a source tree `tree/` (given as `-s tree`) and the tracefiles name its files under
+/// `./`, `/./`, `//` spellings. The argument list is shuffled (a real permutation whenever there
+/// are two arguments). `dir` is where reference runs may be made.
+pub fn build_layout(rng: &mut Rng, dir: &Path, k: usize) -> Layout {
+    let source_tree = rng.chance(1, 3);
+    let mut inputs = gen_inputs_spelled(rng, k, source_tree);
+    let nd = rng.range(2, 3) as usize;
+    let nz = rng.range(1, 2) as usize;
+    let mut dirs: Vec<Vec<(String, Vec<u8>)>> = vec![vec![]; nd];
+    let mut zips: Vec<Vec<(String, Vec<u8>)>> = vec![vec![]; nz];
+    let mut plain: Vec<(String, Vec<u8>)> = vec![];
+    let mut same_name_used = 0;
+    for (i, inp) in inputs.iter_mut().enumerate() {
+        let ext = if inp.format == "Info" { "info" } else { "xml" };
+        let mut rel = match rng.below(4) {
+            0 => format!("sub/in{}.{}", i, ext),
+            1 => format!("sub/deep/in{}.{}", i, ext),
+            _ => format!("in{}.{}", i, ext),
+        };
+        if rng.chance(1, 4) {
+            rel = format!("cov.{}", ext); // the same relative name in several archives
+        }
+        let place = rng.below(8);
+        let slot: &mut Vec<(String, Vec<u8>)> = if place < 2 {
+            rel = format!("in{}.{}", i, ext);
+            &mut plain
+        } else if place < 5 {
+            &mut dirs[rng.below(nd as u64) as usize]
+        } else {
+            &mut zips[rng.below(nz as u64) as usize]
+        };
+        if slot.iter().any(|e| e.0 == rel) {
+            rel = format!("in{}.{}", i, ext);
+        } else if rel.starts_with("cov.") {
+            same_name_used += 1;
+        }
+        slot.push((rel.clone(), inp.bytes.clone()));
+        inp.name = rel;
+    }
+    // the LLVM pair
+    let has_pair = rng.chance(1, 3) && Path::new("/repo/test/llvm/file.gcno").exists();
+    let mut pair_in_zip = false;
+    if has_pair {
+        let stem = *rng.pick(&["file", "file_branch"]);
+        let gcno = std::fs::read(format!("/repo/test/llvm/{}.gcno", stem)).unwrap();
+        let gcda = std::fs::read(format!("/repo/test/llvm/{}.gcda", stem)).unwrap();
+        let pre = if rng.chance(1, 2) { "obj/" } else { "" };
+        pair_in_zip = rng.chance(1, 2);
+        let slot = if pair_in_zip { &mut zips[rng.below(nz as u64) as usize] } else { &mut dirs[rng.below(nd as u64) as usize] };
+        slot.push((format!("{}{}.gcno", pre, stem), gcno.clone()));
+        slot.push((format!("{}{}.gcda", pre, stem), gcda.clone()));
+        // what the pair contains: a reference run on the pair alone
+        let refdir = dir.join("pair_reference");
+        let _ = std::fs::remove_dir_all(&refdir);
+        std::fs::create_dir_all(refdir.join("p")).unwrap();
+        std::fs::write(refdir.join("p").join(format!("{}.gcno", stem)), &gcno).unwrap();
+        std::fs::write(refdir.join("p").join(format!("{}.gcda", stem)), &gcda).unwrap();
+        let out = run_grcov(&RunCfg { dir: &refdir, args: vec!["p".into()], threads: 1, perturb: None, fault: None,
+            limit: Duration::from_secs(60), extra: vec!["-t".into(), "lcov".into(), "--branch".into(), "--no-demangle".into()] });
+        let parsed: Vec<(String, CovResult)> = decode_lcov_report(&out.stdout).map(|m| m.into_iter().collect()).unwrap_or_default();
+        let _ = std::fs::remove_dir_all(&refdir);
+        inputs.push(Input { name: format!("{}{}.gcno", pre, stem), format: "Gcno", bytes: gcno,
+            id: format!("Gcno:buffers:{}{}:1", pre, stem), parsed });
+    }
+    let mut files: Vec<(String, Vec<u8>)> = vec![];
+    let mut args: Vec<String> = vec![];
+    for (j, d) in dirs.iter().enumerate() {
+        if d.is_empty() {
+            continue;
+        }
+        for (rel, b) in d {
+            files.push((format!("d{}/{}", j, rel), b.clone()));
+        }
+        // a decoy beside the artifacts
+        files.push((format!("d{}/README.txt", j), b"not coverage\n".to_vec()));
+        args.push(format!("d{}", j));
+    }
+    for (j, z) in zips.iter().enumerate() {
+        if z.is_empty() {
+            continue;
+        }
+        let tmp = dir.join(format!("layout_z{}.zip", j));
+        std::fs::create_dir_all(dir).unwrap();
+        write_stored_zip(&tmp, z);
+        files.push((format!("z{}.zip", j), std::fs::read(&tmp).unwrap()));
+        let _ = std::fs::remove_file(&tmp);
+        args.push(format!("z{}.zip", j));
+    }
+    for (rel, b) in &plain {
+        files.push((rel.clone(), b.clone()));
+        args.push(rel.clone());
+    }
+    let mut extra = vec![];
+    if source_tree {
+        for f in ["src/a.c", "src/b.c", "lib/c.rs", "pkg/A.java", "pkg/B.java"] {
+            files.push((format!("tree/{}", f), format!("// {}\n", f).into_bytes()));
+        }
+        extra.push("-s".to_string());
+        extra.push("tree".to_string());
+    }
+    let args_canonical = args.clone();
+    if args.len() >= 2 {
+        // a real permutation
+        for _ in 0..8 {
+            rng.shuffle(&mut args);
+            if args != args_canonical {
+                break;
+            }
+        }
+        if args == args_canonical {
+            args.reverse();
+        }
+    }
+    let shape = format!("dirs={} zips={} plain={}{}{}{}", dirs.iter().filter(|d| !d.is_empty()).count(),
+        zips.iter().filter(|z| !z.is_empty()).count(), plain.len(),
+        if has_pair { if pair_in_zip { " pair-in-zip" } else { " pair-in-dir" } } else { "" },
+        if source_tree { " -s" } else { "" }, if same_name_used >= 2 { " same-rel-name" } else { "" });
+    let n_items = inputs.len();
+    Layout { files, inputs, args, args_canonical, extra, n_items, has_pair, source_tree, shape }
+}
+
+/// Bounds the time a check spends on runs that do not terminate: the first hung run may take
+/// `first`, every later one `later`; after `max_hangs` hung runs `exhausted()` says "stop starting
+/// runs that can hang" (each hung run is reported as a violation by the caller anyway).
+pub struct HangBudget {
+    pub hangs: usize,
+    pub max_hangs: usize,
+    pub first: Duration,
+    pub later: Duration,
+    pub skipped: usize,
+}
+
+impl HangBudget {
+    pub fn new(first_s: u64, later_s: u64, max_hangs: usize) -> HangBudget {
+        HangBudget { hangs: 0, max_hangs, first: Duration::from_secs(first_s), later: Duration::from_secs(later_s), skipped: 0 }
+    }
+    pub fn limit(&self) -> Duration {
+        if self.hangs == 0 { self.first } else { self.later }
+    }
+    pub fn exhausted(&self) -> bool {
+        self.hangs >= self.max_hangs
+    }
+    /// to be called with every finished run
+    pub fn note(&mut self, out: &RunOut) {
+        if out.exit.is_none() {
+            self.hangs += 1;
+        }
+    }
+    pub fn skip(&mut self) {
+        self.skipped += 1;
+    }
+}
+
+/// `log_to_request_ext` plus: `died_in_merge` (the consumer panicked inside `add_results`, after its
+/// `lock` line: event `M`); and a held item that the hook was going to reject (`rej_ids`) when
+/// `main` left through `process::exit(1)`: the rejection is immediate and silent, the worker may
+/// even have taken one more element without reaching its log call, so the item counts as rejected.
+/// The request ends with `E:<0|1>`, the exit status class of the process: only a realisation that
+/// ends with it counts (whether the producer's last announced send failed is not in the log).
+pub fn log_to_request_full(
+    out: &RunOut,
+    threads: usize,
+    rx_main: bool,
+    n_inputs: usize,
+    die_ids: &[String],
+    rej_ids: &[String],
+    prod_died: bool,
+) -> Result<String, String> {
+    // `main` left through `process::exit(1)` while a worker was writing its log line (the hook
+    // writes a line piecewise): the LAST line may be cut short – a `recv` whose id is no send's id.
+    // The worker then counts as one that took an element without reaching its log call (`G`).
+    let nonzero0 = matches!(out.exit, Some(c) if c != 0) || out.exit.is_none();
+    let mut log = out.log.clone();
+    if nonzero0 {
+        if let Some(last) = log.last() {
+            if last.1 == "recv" && !log.iter().any(|e| e.1 == "send" && e.2 == last.2) {
+                log.pop();
+            }
+        }
+    }
+    let out = &RunOut { exit: out.exit, stdout: String::new(), stderr: String::new(), log, wall_ms: out.wall_ms };
+    let base = log_to_request_ext(out, threads, rx_main, n_inputs, die_ids, prod_died)?;
+    // recompute the per-worker tails that the base translation does not know about
+    let mut sends: Vec<&str> = out.log.iter().filter(|e| e.1 == "send").map(|e| e.2.as_str()).collect();
+    if out.log.iter().any(|e| e.1 == "producer_died") {
+        sends.pop();
+    }
+    let mut taken = vec![false; sends.len()];
+    let mut holding: BTreeMap<usize, usize> = BTreeMap::new();
+    let mut insert_m: Vec<(usize, usize)> = vec![]; // (worker, number of W-events before the M)
+    let mut nev: Vec<usize> = vec![0; threads];
+    for (thread, kind, id) in &out.log {
+        let Some(w) = thread.strip_prefix("Consumer_").and_then(|w| w.parse::<usize>().ok()) else { continue };
+        if w >= threads {
+            continue;
+        }
+        match kind.as_str() {
+            "recv" => {
+                if let Some(k) = (0..sends.len()).find(|&k| !taken[k] && sends[k] == id) {
+                    taken[k] = true;
+                    if holding.insert(w, k + 1).is_some() {
+                        nev[w] += 1; // the x event
+                    }
+                    nev[w] += 1;
+                }
+            }
+            "merged" => {
+                holding.remove(&w);
+                nev[w] += 1;
+            }
+            "recv_stop" => {
+                if holding.remove(&w).is_some() {
+                    nev[w] += 1;
+                }
+                nev[w] += 1;
+            }
+            "exit" | "lock" | "unlock" | "died_idle" => nev[w] += 1,
+            "died_in_merge" => {
+                insert_m.push((w, nev[w]));
+                holding.remove(&w);
+            }
+            _ => {}
+        }
+    }
+    let nonzero = matches!(out.exit, Some(c) if c != 0);
+    let mut toks: Vec<String> = base.split(' ').map(|s| s.to_string()).collect();
+    let mut wi = 0usize;
+    for t in toks.iter_mut() {
+        if !t.starts_with("W:") {
+            continue;
+        }
+        let w = wi;
+        wi += 1;
+        let mut evs: Vec<String> = t[2..].split(',').filter(|e| !e.is_empty()).map(|s| s.to_string()).collect();
+        if let Some((_, at)) = insert_m.iter().find(|e| e.0 == w) {
+            // a `d<k>` the base translation may have appended for this worker does not apply
+            evs.retain(|e| !e.starts_with('d'));
+            let at = (*at).min(evs.len());
+            evs.insert(at, "M".into());
+        } else if let Some(k) = holding.get(&w) {
+            let id = sends[*k - 1];
+            if nonzero && rej_ids.iter().any(|r| r == id) && !evs.iter().any(|e| e.starts_with('d')) {
+                evs.push(format!("x{}", k));
+            }
+        }
+        *t = format!("W:{}", evs.join(","));
+    }
+    // the exit status of the process decides between realisations that differ in silent steps only
+    if let Some(c) = out.exit {
+        toks.push(format!("E:{}", if c == 0 { 0 } else { 1 }));
+    }
+    Ok(toks.join(" "))
+}
